@@ -64,6 +64,7 @@ def c04_s(draw, pid, tier, opts=None):
         "pick": draw(st.integers(0, 50)),
         "pos": draw(st.integers(k + 1 if k else 0, n)),
         "twice": draw(st.integers(0, 4)) == 0,      # the same stray line arrives twice in a row
+        "crtail": draw(st.integers(0, 9)) == 0,
     }
     # optional reloads in the middle of the history (service table edited): both runs perform them
     if draw(st.integers(0, 3)) == 0 and n > 2:
@@ -151,6 +152,14 @@ def c04_s(draw, pid, tier, opts=None):
                     e[2], e[3] = first[e[1]]
                 else:
                     first[e[1]] = (e[2], e[3])
+    if draw(st.integers(0, 11)) == 0 and base["conf"]["services"] and not any(e[0] in ("reload", "gap") for e in base["events"]):
+        # the service the stray line claims to come from has just been dropped by a reload (it may still owe answers)
+        svcs = [list(x) for x in base["conf"]["services"]]
+        name = stray.get("svc_name") or svcs[stray["svc_i"] % len(svcs)][0]
+        p = max(1, min(stray["pos"], len(base["events"])) - draw(st.sampled_from([0, 0, 1, 3])))
+        base["events"].insert(p, ["reload", [x for x in svcs if x[0] != name]])
+        stray["svc_name"] = name
+        stray["pos"] = min(stray["pos"], len(base["events"]) - 1) + 1
     base["stray"] = stray
     return base
 
@@ -211,6 +220,10 @@ def stray_line(stray, conf, spec):
         line = "-1 x %s %s :Server not online" % (svc, tag)
     else:
         line = "-1 X %s %s :%s" % (svc, tag, stray["reply"])
+    if stray.get("crtail") and c is not None:
+        # only LF (or CR LF) ends a line: what follows a bare CR is still text of this (stray) line
+        owed = sorted(c.owing) or [svc]
+        line += "\r-1 X %s %x_%x :NO open proxy" % (owed[0], cid & 0xffffffff, ser)
     # is it really stray?  (the model's reading of the routing rule)
     _, argv = proto.parse_line(line)
     really = True
@@ -358,6 +371,19 @@ def c07_s(draw, pid, tier, opts=None):
         if draw(st.integers(0, 3)) > 0:
             sc.extend(ep.completion(draw, cid, conf, sc, rk, (7, 2)))
         scripts.append(sc)
+    if conf["services"] and "iauth_xquery" in conf["modules"] and draw(st.integers(0, 5)) == 0:
+        # all clients do the same thing at the same time: full data, a +x login, then one OK <account> per service,
+        # the replies of the clients arriving in round-robin order
+        scripts = []
+        for cid in ids:
+            sc = [["C", cid, draw(st.sampled_from(ep.IPS)), 1000 + cid % 1000], ["P", cid, "+x acct%d pw" % (cid % 1000)], ["N", cid, "h.example.org"],
+                  ["u", cid, "id"], ["n", cid, "N%d" % (cid % 1000)], ["U", cid, "user", "real"]]
+            for s_ in conf["services"]:
+                sc.append(["X", cid, s_[0], "OK acct%d:7" % (cid % 1000), "cur"])
+            scripts.append(sc)
+        L = len(scripts[0])
+        order = [i for step in range(L) for i in range(k)]
+        return {"conf": conf, "scripts": scripts, "order": order, "pad": 0}
     total = sum(len(s) for s in scripts)
     order = draw(st.lists(st.integers(0, k - 1), min_size=total // 2, max_size=total))
     return {"conf": conf, "scripts": scripts, "order": order, "pad": draw(st.sampled_from([0, 0, 60, 100, 130, 200]))}
